@@ -898,7 +898,13 @@ class OmniParser(PVLParser):
                         )
                         return module, False  # return through parse_module()
                 else:
+                    # The previous value cannot be a parameter name, so
+                    # this equals sign is not something we can fix: return
+                    # the token and signal parse_module() that it should
+                    # ignore us (claiming progress here, without having
+                    # consumed anything, would loop forever).
                     tokens.send(t)
+                    raise Exception
             else:
                 # The next token isn't an equals sign or the module is
                 # empty, so we want return the token and signal
